@@ -163,7 +163,13 @@ func genWire(g *genCtx) {
 		n++
 	}
 	rt := func(tn string, a assign) {
-		emit(Case{"k": "rt", "type": tn, "p": assignToJSON(tn, a)})
+		c := Case{"k": "rt", "type": tn, "p": assignToJSON(tn, a)}
+		// every fourth struct still holds the length member of an earlier encode or decode (a PDU that is
+		// edited and sent again): the prefix written must be the real byte count all the same
+		if n%4 == 2 {
+			c["stale"] = []int{12, 13, 255, 65536 + n%1000, 1 << 30}[(n/4)%5]
+		}
+		emit(c)
 	}
 	if g.part == "" || g.part == "rt" {
 		for _, tn := range typeNames {
@@ -490,6 +496,9 @@ func runWire(c Case, tr *Tracer) {
 		pm, _ := c["p"].(map[string]interface{})
 		a := assignFromJSON(tn, pm)
 		obj := build(tn, a)
+		if v := caseInt(c, "stale"); v > 0 {
+			setHeaderLen(obj, uint64(v))
+		}
 		p := project(tn, obj) // what is actually in the struct, before IEncode may touch it
 		var bytes []byte
 		var err error
